@@ -112,7 +112,8 @@ def harnesses(tier):
     ST.install_sqlite()
     c08.install()
     hs = []
-    for bk in ["memory", "sqlite"]:
+    ST.install_peewee()
+    for bk in ["memory", "sqlite", "peewee"]:
         for n in ([0, 1, 2] if tier == "quick" else [0, 1, 2, 3]):
             hs.append((Harness(PROP, "%s-step-r%d" % (bk, n), h_step, dict(bk=bk, n=n), "%s: one heartbeat into a bucket holding a reduced stream of %d events (+2 events in another bucket)" % (bk, n), split_depth=6), 1800))
         for k in ([2, 3] if tier == "quick" else [2, 3, 4]):
